@@ -203,7 +203,8 @@ static void gen_constructor(plan_t *p, rng_t *r, int slot, int isnew, int hard, 
         int nb = rng_chance(r, 1, 4);
         snprintf(kind, sizeof(kind), "%s_fd", pre);
         n = gen_text(r, buf, sizeof(buf), big || rng_chance(r, 1, 3) ? rng_range(r, 1, 2) : 0);
-        o = plan_op(p, 0, kind, 2, (long)slot, (long)nb);
+        if (rng_chance(r, 1, 4)) { o = plan_op(p, 0, kind, 4, (long)slot, 0L, 1L, (long)(rng_chance(r, 1, 2) ? rng_below(r, (uint32_t)n + 1) : 0)); nb = 0; }      /* a regular file, read from its start or from an offset */
+        else o = plan_op(p, 0, kind, 2, (long)slot, (long)nb);
         op_str(o, buf, n);
         gen_read_faults(o, r, hard, nb);
         glen[slot] = n;
